@@ -29,6 +29,7 @@ fn groups_for(prop: &str, ctx: &Ctx) -> Vec<Box<dyn Group>> {
         "C08" => vec![Box::new(c08::Framing)],
         "C20" => vec![Box::new(c20::Pair::new()), Box::new(c20::MuxStreams::new())],
         "C10" => vec![Box::new(c10::Nested)],
+        "C11" => vec![Box::new(c11::Chain)],
         _ => vec![],
     }
 }
